@@ -101,13 +101,12 @@ class P(Prop):
         (M, "TV.C13.repr_value", "float(str(n/10^d)) has the value n/10^d (trailing zeros trimmed)"),
         (M, "TV.C13.network_row_roundtrip", "an edge line written by writeToCsv is split by csv.reader into its five fields and rebuilt by readLineAndAddToNetwork as the same edge"),
         (M, "TV.C13.net_file_roundtrip", "whole network file: h=1/header=1 returns all edges in order; h=0/header=0 returns them without the first"),
-        (M, "TV.C13.gpx_point_partial", "the lat/lon/ele numbers and the <time> text of a GPX track point are read back as written (scanner not covered)"),
+        (M, "TV.C13.gpx_file_roundtrip", "the body writeToGpx writes for a track is read by the trk scanner, with an ISO read format, as one track with the same points in order (elevation only for geographic coordinates)"),
+        (M, "TV.C13.gpx_read_formats", "'4Y-2M-2DT2h:2m:2s' with or without Z reads the stamps the GPX writer prints, calendar part unchanged"),
         (M, "TV.C13.written_precision_partial", "on the decimal lattice the printed coordinate and what float() reads denote the same number (format()'s rounding of arbitrary doubles not covered)"),
     ]
-    partial = ["gpx_point_partial: proves the number and timestamp texts of a track point round-trip; missing: the line scanner of __readFromGpx (modelled, correspondence only)",
-               "written_precision_partial: proves exact read-back on the 10^-d lattice; missing: Python's format()/float() rounding on arbitrary doubles (sampled: 'fix' stream, byte-for-byte file comparison, off-lattice tracks)"]
-    open_statements = ["gpx_file_roundtrip: readGpx (gpxBody rows) = rows for the whole scanner (state machine over lines) is not proved",
-                       "the string-level find/replace loops of ObsTime.__str__ and __precompileReadFmt are modelled on the tokenised format (codes recognised left to right); "
+    partial = ["written_precision_partial: proves exact read-back on the 10^-d lattice; missing: Python's format()/float() rounding on arbitrary doubles (sampled: 'fix' stream, byte-for-byte file comparison, off-lattice tracks)"]
+    open_statements = ["the string-level find/replace loops of ObsTime.__str__ and __precompileReadFmt are modelled on the tokenised format (codes recognised left to right); "
                        "equivalence with the string algorithm for formats whose literals are not code letters is checked by correspondence only",
                        "read_all feature columns are not modelled on the reader side (the writer never emits the header line that names them)"]
     modelled = ("TrackWriter.writeToFile (O list, sort, __printInOrder, float formats), TrackReader.__readFromCsv (data loop, header/comment "
